@@ -8,13 +8,15 @@ CONSTANTS MaxLen,      \* longest operand list enumerated exhaustively
 
 N(v) == [t |-> "e", e |-> [o |-> "n", v |-> v, sty |-> "d"]]
 H(v) == [t |-> "e", e |-> [o |-> "n", v |-> v, sty |-> "h"]]
+Z(v) == [t |-> "e", e |-> [o |-> "n", v |-> v, sty |-> "z"]]      \* zero-padded decimal: 010 is ten
+HU(v) == [t |-> "e", e |-> [o |-> "n", v |-> v, sty |-> "H"]]     \* 0X.. with upper-case digits
 Bin(op, a, b) == [o |-> op, a |-> a, b |-> b]
 Lit(v) == [o |-> "n", v |-> v, sty |-> "d"]
 E(e) == [t |-> "e", e |-> e]
 Str(b) == [t |-> "s", b |-> b]
 
 Numbers == {N(0), N(1), N(-1), N(127), N(128), N(255), N(256), N(-128), N(-129), H(32767), H(32768),
-            H(65535), H(65536), N(-32768), H(2147483647), N(-2147483647 - 1), H(-1)}
+            H(65535), H(65536), N(-32768), H(2147483647), N(-2147483647 - 1), H(-1), Z(10), Z(777), Z(8), Z(-9), HU(43981)}
 Exprs == {E(Bin("+", Lit(1), Bin("*", Lit(2), Lit(3)))),
           E(Bin("*", [o |-> "par", a |-> Bin("+", Lit(1), Lit(2))], Lit(3))),
           E(Bin("/", Lit(7), Lit(2))), E(Bin("/", [o |-> "neg", a |-> Lit(7)], Lit(2))),
@@ -31,7 +33,7 @@ Lists == UNION {[1..n -> Alphabet] : n \in 1..MaxLen}
 Universe ==
   CASE Part = "lists" -> {[k |-> "data", mn |-> d, items |-> it] : d \in {"DB", "DW", "DD"}, it \in Lists}
     [] Part = "resb" -> {[k |-> "resb", e |-> e] : e \in {Lit(0), Lit(1), Lit(2), Lit(255), Lit(256), Lit(4096),
-                            Bin("*", Lit(3), Lit(5)), Bin("-", [o |-> "n", v |-> 31776, sty |-> "h"], [o |-> "$"]),
+                            Bin("*", Lit(3), Lit(5)), [o |-> "n", v |-> 10, sty |-> "z"], [o |-> "n", v |-> 100, sty |-> "z"], Bin("-", [o |-> "n", v |-> 31776, sty |-> "h"], [o |-> "$"]),
                             Bin("-", Bin("+", [o |-> "id", nm |-> "lbl0"], Lit(64)), [o |-> "$"]), [o |-> "id", nm |-> "K5"]}}
     [] Part = "alignb" -> {[k |-> "alignb", v |-> v] : v \in {1, 2, 4, 8, 16, 32}}
     [] Part = "dirs" -> {[k |-> "equ", nm |-> "Q1", e |-> Lit(9)], [k |-> "label", nm |-> "zz9"],
